@@ -63,18 +63,17 @@ impl StringExpression {
                 .ok_or_else(|| StringError::invalid("unable to find `[` delimiter"))
                 .and_then(|indice| {
                     let length = 2 + indice;
-                    let start = if string
-                        .get(length..length + 1)
-                        .filter(|char| char == &"\n")
-                        .is_some()
-                    {
+                    // the first line break is skipped and every `\r\n` reads as `\n`
+                    let start = if string.get(length..length + 2) == Some("\r\n") {
+                        length + 2
+                    } else if string.get(length..length + 1) == Some("\n") {
                         length + 1
                     } else {
                         length
                     };
                     string
                         .get(start..string.len() - length)
-                        .map(str::to_owned)
+                        .map(|content| content.replace("\r\n", "\n"))
                         .ok_or_else(|| StringError::invalid(""))
                 })
                 .map(Self::from_value);
